@@ -27,6 +27,10 @@ func init() { register("C09", C09) }
 // xtextDecoder adapts an x/text encoding to the emulator's Decoder.
 func xtextDecoder(enc xenc.Encoding) vt.Decoder {
 	d := enc.NewDecoder()
+	fffd, ferr := enc.NewEncoder().Bytes([]byte("\uFFFD"))
+	if ferr != nil {
+		fffd = nil
+	}
 	return func(b []byte) (rune, int, bool) {
 		out := make([]byte, 16)
 		for k := 1; k <= len(b) && k <= 4; k++ {
@@ -39,6 +43,9 @@ func xtextDecoder(enc xenc.Encoding) vt.Decoder {
 				return 0, 0, false
 			}
 			r, sz := utf8.DecodeRune(out[:nOut])
+			if r == utf8.RuneError && sz == 3 && nOut == 3 && fffd != nil && bytes.Equal(fffd, b[:k]) {
+				return r, k, false // the charset's own encoding of U+FFFD (GB18030: 84 31 A4 37)
+			}
 			if r == utf8.RuneError || sz != nOut {
 				return 0, 0, false
 			}
